@@ -1576,6 +1576,18 @@ impl<'a, SE: extensions::ShellExtensions> WordExpander<'a, SE> {
                     .set_extended_globbing(self.parser_options.enable_extended_globbing)
                     .set_case_insensitive(self.shell.options().case_insensitive_conditionals);
 
+                // An empty pattern matches nothing in the unanchored forms (only `/#` and `/%`
+                // treat it as the empty prefix / suffix).
+                if expanded_pattern.is_empty()
+                    && matches!(
+                        match_kind,
+                        brush_parser::word::SubstringMatchKind::FirstOccurrence
+                            | brush_parser::word::SubstringMatchKind::Anywhere
+                    )
+                {
+                    return Ok(expanded_parameter);
+                }
+
                 // If no replacement was provided, then we replace with an empty string.
                 let replacement = replacement.unwrap_or(String::new());
                 let expanded_replacement = self.basic_expand_to_str(&replacement).await?;
